@@ -12,3 +12,4 @@ import Pdpy11.Props.C17
 import Pdpy11.Props.C18
 import Pdpy11.Props.C07
 import Pdpy11.Props.C02
+import Pdpy11.Props.C09
